@@ -356,6 +356,26 @@ fn pool_alphabet(n: &Node, cfg: &AlphaCfg) -> Vec<(String, Transaction, bool)> {
     if let Some(only) = &cfg.only_pools {
         pools.retain(|k| only.contains(k));
     }
+    if cfg.odd_shapes {
+        // requests "against the pool named by the empty string": the empty data parses as the pair (NewCustom, MEL), and NewCustom
+        // is what every new-token output is labelled with inside its transaction.  None of these is a request; their outputs stay
+        // as declared (the new-token outputs become tokens of their own transactions).
+        let mels = coins_of(m, Denom::Mel, 3);
+        if let Some(a) = mels.first() {
+            let v = a.1.coin_data.value.0;
+            if cfg.deposits {
+                out.push(("deposit[NEW/MEL:empty-data]".to_string(), tx_t(TxKind::LiqDeposit, vec![a.0], vec![out_t(1000, Denom::NewCustom), out_t(v, Denom::Mel)], 0, vec![]), true));
+            }
+            if cfg.swaps {
+                out.push((format!("swap[NEW/MEL:empty-data](MEL {})", short(&a.0)), tx_t(TxKind::Swap, vec![a.0], vec![out_t(v, Denom::Mel)], 0, vec![]), true));
+            }
+        }
+        if let Some(b) = mels.get(1) {
+            if cfg.swaps {
+                out.push((format!("swap[NEW/MEL:empty-data](NEW, carrier {})", short(&b.0)), tx_t(TxKind::Swap, vec![b.0], vec![out_t(1_000_000_000, Denom::NewCustom), out_t(b.1.coin_data.value.0, Denom::Mel)], 0, vec![]), true));
+            }
+        }
+    }
     for k in &pools {
         let pname = format!("{}/{}", dn(k.left()), dn(k.right()));
         let spellings: Vec<(&'static str, Vec<u8>)> = if cfg.pool_spellings { pool_spellings(*k) } else { vec![("canonical", k.to_bytes().to_vec())] };
